@@ -1,6 +1,7 @@
 package main
 
 import (
+	"reflect"
 	"encoding/json"
 	"fmt"
 	"go/ast"
@@ -159,6 +160,17 @@ func implAnnot(in json.RawMessage) (any, error) {
 			}
 		} else {
 			aa.Props = json.RawMessage("null")
+		}
+		// … also as seen through the attribute's own accessors: a key the object binds - to null as well - is present
+		// and yields the bound value; a key it does not bind is absent
+		for k, v := range a.Properties {
+			pv := a.GetProperty(k)
+			if !a.HasProperty(k) || pv == nil || !reflect.DeepEqual(*pv, v) {
+				aa.RangesOk = false
+			}
+		}
+		if a.HasProperty("\x00 no such key") || a.GetProperty("\x00 no such key") != nil {
+			aa.RangesOk = false
 		}
 		// the position of the comment itself: line = 1 + skip + index, column = bytes of indent
 		if c.Position.StartLine != 1+ai.Skip+c.Index || c.Position.StartCol != len(ai.Indent) ||
